@@ -61,6 +61,7 @@ type Case struct {
 	K      string   `json:"k"`
 	Params []string `json:"params"`
 	Ret    string   `json:"ret"`
+	Ret2   string   `json:"ret2"` // optional second result kind ("error" = a non-nil error, others = zero value)
 	RetV   *P       `json:"retv"`
 	Args   []V      `json:"args"`
 	M      string   `json:"m"`
@@ -97,7 +98,9 @@ var kinds = map[string]reflect.Type{
 	"uint": reflect.TypeOf(uint(0)), "uint8": reflect.TypeOf(uint8(0)), "uint16": reflect.TypeOf(uint16(0)),
 	"uint32": reflect.TypeOf(uint32(0)), "uint64": reflect.TypeOf(uint64(0)),
 	"float32": reflect.TypeOf(float32(0)), "float64": reflect.TypeOf(float64(0)),
-	"slice": reflect.TypeOf([]int{}),
+	"slice": reflect.TypeOf([]int{}), "map": reflect.TypeOf(map[string]int{}), "struct": reflect.TypeOf(struct{ A int }{}),
+	"ptr": reflect.TypeOf((*int)(nil)), "iface": reflect.TypeOf((*interface{})(nil)).Elem(),
+	"error": reflect.TypeOf((*error)(nil)).Elem(),
 }
 
 func bits(f float64) string { return strconv.FormatUint(math.Float64bits(f), 10) }
@@ -340,6 +343,9 @@ func runCase(c Case) (o Obs) {
 		var out []reflect.Type
 		if c.Ret != "" {
 			out = []reflect.Type{kinds[c.Ret]}
+			if c.Ret2 != "" {
+				out = append(out, kinds[c.Ret2])
+			}
 		}
 		fn := reflect.MakeFunc(reflect.FuncOf(in, out, false), func(args []reflect.Value) []reflect.Value {
 			for _, a := range args {
@@ -348,7 +354,15 @@ func runCase(c Case) (o Obs) {
 			if c.Ret == "" {
 				return nil
 			}
-			return []reflect.Value{build(kinds[c.Ret], c.RetV)}
+			res := []reflect.Value{build(kinds[c.Ret], c.RetV)}
+			if c.Ret2 == "error" {
+				ev := reflect.New(kinds["error"]).Elem()
+				ev.Set(reflect.ValueOf(fmt.Errorf("second result")))
+				res = append(res, ev)
+			} else if c.Ret2 != "" {
+				res = append(res, reflect.New(kinds[c.Ret2]).Elem())
+			}
+			return res
 		})
 		seq++
 		name := "c17f" + strconv.Itoa(seq)
